@@ -294,6 +294,51 @@ func dictFault(r *model.Rand, b *Base, chord bool) string {
 	return path
 }
 
+// genDictUse draws a command that uses the entries of a faulty chord
+// dictionary (inheritance chains that dangle or loop, odd shapes).
+func (p *C09) genDictUse(r *model.Rand) (Base, string) {
+	type dd struct {
+		data  string
+		names []string
+	}
+	dicts := []dd{
+		{"- name: CycA\n  meta:\n    display: cyca\n  extends: CycB\n- name: CycB\n  meta:\n    display: cycb\n  extends: CycA\n", []string{"CycA", "cyca", "CycB", "cycb"}},
+		{"- name: Self\n  meta:\n    display: self\n  extends: Self\n", []string{"Self", "self"}},
+		{"- name: L1\n  meta:\n    display: l1\n  extends: L2\n- name: L2\n  meta:\n    display: l2\n  extends: L3\n- name: L3\n  meta:\n    display: l3\n  extends: L1\n  attributes:\n    - Perfect1\n", []string{"L1", "l2", "L3"}},
+		{"- name: Deep\n  meta:\n    display: deep\n  extends: MinorSeventh\n  attributes:\n    - Major9\n- name: Deeper\n  meta:\n    display: deeper\n  extends: Deep\n", []string{"Deep", "deeper"}},
+		{"- name: Over\n  meta:\n    display: m\n  attributes:\n    - Perfect1\n", []string{"Over", "m"}},
+		{"- name: MajorTriad\n  meta:\n    display: \"\"\n  extends: MajorTriad\n", []string{"", "MajorTriad"}},
+		{"- name: Dang\n  meta:\n    display: dang\n  extends: Nowhere\n", []string{"Dang", "dang"}},
+		{"- name: NoAttr\n  meta:\n    display: noattr\n  attributes:\n    - Missing7\n", []string{"NoAttr", "noattr"}},
+		{"- name: Empty\n  meta:\n    display: empty\n  attributes: []\n  extends: \"\"\n", []string{"Empty", "empty"}},
+		{"- name: Dup\n  meta:\n    display: dup\n  attributes:\n    - Perfect1\n- name: Dup\n  meta:\n    display: dup\n  extends: Dup\n", []string{"Dup", "dup"}},
+	}
+	d := model.Pick(r, dicts)
+	nm := model.Pick(r, d.names)
+	path := "/sim/userdict.yml"
+	var b Base
+	switch r.Intn(4) {
+	case 0:
+		t := "C" + nm
+		if nm != "" && (strings.ContainsRune("CDEFGABRb#0123456789", rune(nm[0]))) {
+			t = "C_" + nm
+		}
+		b = Base{Argv: []string{"info", "chord", "describe", "-t", t}, Class: "info"}
+	case 1:
+		b = Base{Argv: []string{"info", "chord", "list"}, Class: "info"}
+	default:
+		cmd := model.Pick(r, [][]string{{"write"}, {"write", "event"}, {"write", "parse"}, {"write", "conv", "-c", "cmt"}})
+		doc := "- chord:\n    degree: \"1\"\n    name: \"" + nm + "\"\n  values:\n    - \"1\"\n"
+		if r.Chance(1, 2) {
+			doc = goodInst + doc
+		}
+		b = Base{Argv: append([]string{}, cmd...), Input: []byte(doc), InputArg: true, Class: "doc"}
+	}
+	b.Files = map[string]*simrt.FileSpec{path: {Data: []byte(d.data), Plan: GenPlan(r)}}
+	b.Argv = append(b.Argv, "--chord", path)
+	return b, nm
+}
+
 // ---------------------------------------------------------------------------
 // nonsense (clause 2 of the property)
 
@@ -468,7 +513,7 @@ func (p *C09) Generate(seed uint64, run int) *Case {
 		return c
 	}
 	var b Base
-	switch r.Intn(20) {
+	switch r.Intn(21) {
 	case 0, 1, 2, 3, 4, 5, 6:
 		b = p.w.GenText(r, r.Chance(1, 50))
 	case 7, 8, 9, 10, 11, 12, 13:
@@ -480,12 +525,19 @@ func (p *C09) Generate(seed uint64, run int) *Case {
 		t := model.Pick(r, []string{"C", "Cm", "C_7", "C;", "C_", "C{", "C[", "", "H", "Cm7/", "C/E", "R", "C]", "C#", "C♭m", "1", "C C", "C;x\n", "C{a", "C_7;", "Cm{txt=a"})
 		b = Base{Argv: []string{"info", "chord", "describe", "-t", t}, Class: "info"}
 		c.Labels = append(c.Labels, "fault:F11:flag:-t")
+	case 19:
+		// a faulty chord dictionary whose entries the command actually uses
+		b, _ = p.genDictUse(r)
+		c.Labels = append(c.Labels, "fault:F10:dictionary")
 	default:
 		b = p.w.GenInfo(r)
 		p.w.WithDict(r, &b)
 	}
 	// faults: a quarter none, half one, a quarter two or more
 	nf := []int{0, 1, 1, 2}[r.Intn(4)]
+	if _, ok := c.HasLabel("fault:F10:dictionary"); ok {
+		nf = 0
+	}
 	if nf == 2 && r.Chance(1, 2) {
 		nf = 3
 	}
@@ -522,6 +574,16 @@ func (p *C09) Generate(seed uint64, run int) *Case {
 				b.Argv = append(b.Argv, "--chord", path)
 				if b.Class == "doc" && r.Chance(2, 3) {
 					nm := model.Pick(r, []string{"cyca", "CycB", "self", "Self", "bad", "anon", "Bad"})
+					if f, ok := b.Files[path]; ok {
+						switch {
+						case bytes.Contains(f.Data, []byte("CycA")):
+							nm = model.Pick(r, []string{"cyca", "CycB", "CycA", "cycb"})
+						case bytes.Contains(f.Data, []byte("Self")):
+							nm = model.Pick(r, []string{"self", "Self"})
+						case bytes.Contains(f.Data, []byte("Bad")):
+							nm = model.Pick(r, []string{"bad", "Bad"})
+						}
+					}
 					b.Input = append(b.Input, []byte("- chord:\n    degree: \"1\"\n    name: \""+nm+"\"\n  values:\n    - \"1\"\n")...)
 				}
 				if b.Class == "info" && r.Chance(1, 2) {
